@@ -134,20 +134,26 @@ def flushRows (s : St) (rows : List Row) : St × Bool :=
       let w := s.obs.drop (s.obs.length - k)
       ({ s with stored := s.stored ++ rows.filter (fun r => w.contains r.hour), failAfter := some 0 }, false)
 
+/-- `markFlushFailure` at a failure site (when that site calls it) -/
+def markFail (sets : Bool) (r : St × Bool) : St :=
+  if r.2 then r.1 else if sets then { r.1 with flag := true } else r.1
+
 def workerFlush (c : Cfg) (s : St) (t : Task) : St :=
-  let r := flushRows s t.rows
-  if r.2 then r.1 else if c.facts.workerFailSetsFlag then { r.1 with flag := true } else r.1
+  markFail c.facts.workerFailSetsFlag (flushRows s t.rows)
 
 def syncFlush (c : Cfg) (s : St) (rows : List Row) : St :=
-  let r := flushRows s rows
-  if r.2 then r.1 else if c.facts.syncFailSetsFlag then { r.1 with flag := true } else r.1
+  markFail c.facts.syncFailSetsFlag (flushRows s rows)
 
 /-- the (single) flush worker runs until the queue is empty -/
-def runWorker (c : Cfg) (s : St) : St :=
-  let s1 := match s.inflight with
-    | some t => workerFlush c { s with inflight := none } t
-    | none => s
-  s1.queue.foldl (workerFlush c) { s1 with queue := [] }
+def finishInflight (c : Cfg) (s : St) : St :=
+  match s.inflight with
+  | some t => workerFlush c { s with inflight := none } t
+  | none => s
+
+def drainQueue (c : Cfg) (s : St) : St :=
+  s.queue.foldl (workerFlush c) { s with queue := [] }
+
+def runWorker (c : Cfg) (s : St) : St := drainQueue c (finishInflight c s)
 
 /-- worker behaviour after a task was queued: blocked at the gate (`hold`) it only takes one task -/
 def settle (c : Cfg) (s : St) : St :=
@@ -170,14 +176,21 @@ def takeBuf (k : Nat) : List Buf → Option Buf × List Buf
     if b.key = k then (some b, bs)
     else ((takeBuf k bs).1, b :: (takeBuf k bs).2)
 
+def oldRows (k : Nat) (bs : List Buf) : List Row :=
+  match (takeBuf k bs).1 with
+  | some b => b.rows
+  | none => []
+
+def oldStart (k : Nat) (bs : List Buf) (now : Nat) : Nat :=
+  match (takeBuf k bs).1 with
+  | some b => b.start
+  | none => now
+
 /-- append to the key's buffer; extract + enqueue when it reaches `bufMax` rows -/
 def bufAppend (c : Cfg) (s : St) (key : Nat) (rows : List Row) : St :=
-  let r := takeBuf key s.bufs
-  let start := match r.1 with | some b => b.start | none => s.now
-  let old := match r.1 with | some b => b.rows | none => []
-  if c.bufMax ≤ (old ++ rows).length then
-    enqueue c { s with bufs := r.2 } ⟨key, old ++ rows⟩
-  else { s with bufs := r.2 ++ [⟨key, start, old ++ rows⟩] }
+  if c.bufMax ≤ (oldRows key s.bufs ++ rows).length then
+    enqueue c { s with bufs := (takeBuf key s.bufs).2 } ⟨key, oldRows key s.bufs ++ rows⟩
+  else { s with bufs := (takeBuf key s.bufs).2 ++ [⟨key, oldStart key s.bufs s.now, oldRows key s.bufs ++ rows⟩] }
 
 /-! ### WAL writer -/
 
@@ -186,14 +199,16 @@ def rotate (s : St) (f : WFile) : St :=
            active := some ⟨s.nextFile, s.now, []⟩, activeLinked := true,
            activeStart := s.now, nextFile := s.nextFile + 1 }
 
+def appendEntry (s : St) (f : WFile) (e : Entry) : WFile :=
+  if s.activeLinked then { f with entries := f.entries ++ [e], mtime := s.now } else f
+
 /-- `writeEntry` -/
 def persist (c : Cfg) (s : St) (e : Entry) : St :=
   match s.active with
   | none => s
   | some f =>
-    let f' : WFile := if s.activeLinked then { f with entries := f.entries ++ [e], mtime := s.now } else f
-    if c.rotAge ≤ s.now - s.activeStart then rotate s f'
-    else { s with active := some f' }
+    if c.rotAge ≤ s.now - s.activeStart then rotate s (appendEntry s f e)
+    else { s with active := some (appendEntry s f e) }
 
 def drainChan (c : Cfg) (s : St) : St :=
   s.chan.foldl (persist c) { s with chan := [] }
@@ -201,8 +216,7 @@ def drainChan (c : Cfg) (s : St) : St :=
 /-- `tryEnqueue` on the async channel -/
 def walAppend (c : Cfg) (s : St) (e : Entry) : St :=
   if s.chan.length < c.chanCap then
-    let s1 := { s with chan := s.chan ++ [e] }
-    if s.paused then s1 else drainChan c s1
+    (if s.paused then { s with chan := s.chan ++ [e] } else drainChan c { s with chan := s.chan ++ [e] })
   else { s with dropped := s.dropped + 1 }
 
 /-! ### maintenance tick, recovery -/
@@ -220,11 +234,12 @@ def sortByMtime (fs : List WFile) : List WFile := fs.foldl (fun acc f => insertB
 def replayEntries (c : Cfg) (s : St) (es : List Entry) : St :=
   es.foldl (fun s e => bufAppend c s e.key e.rows) s
 
-/-- `RecoverWithOptions`: every non-active file that is old enough is replayed and deleted -/
+def oldEnough (minAge now : Nat) (f : WFile) : Bool := decide (minAge ≤ now - f.mtime)
+
+/-- `RecoverWithOptions`: every non-active file that is old enough is replayed (oldest first) and deleted -/
 def replayFiles (c : Cfg) (minAge : Nat) (s : St) : St :=
-  let cand := (sortByMtime s.files).filter (fun f => decide (minAge ≤ s.now - f.mtime))
-  let keep := s.files.filter (fun f => !(decide (minAge ≤ s.now - f.mtime)))
-  replayEntries c { s with files := keep } (cand.flatMap (·.entries))
+  replayEntries c { s with files := s.files.filter (fun f => !oldEnough minAge s.now f) }
+    ((sortByMtime (s.files.filter (oldEnough minAge s.now))).flatMap (·.entries))
 
 def tickAct (c : Cfg) (s : St) : TickAct → St
   | .purge => purgeOld c s
@@ -240,28 +255,29 @@ def tick (c : Cfg) (s : St) : St :=
 def flushBufs (c : Cfg) (s : St) (bs : List Buf) : St :=
   bs.foldl (fun s b => syncFlush c s b.rows) s
 
+def aged (c : Cfg) (now : Nat) (b : Buf) : Bool := decide (c.ageMax ≤ now - b.start)
+
 /-- `flushAgedBuffers` -/
 def ageFlush (c : Cfg) (s : St) : St :=
-  let aged := s.bufs.filter (fun b => decide (c.ageMax ≤ s.now - b.start))
-  let rest := s.bufs.filter (fun b => !(decide (c.ageMax ≤ s.now - b.start)))
-  flushBufs c { s with bufs := rest } aged
+  flushBufs c { s with bufs := s.bufs.filter (fun b => !aged c s.now b) } (s.bufs.filter (aged c s.now))
 
 /-- `ArrowBuffer.Close`: the in-flight task finishes, the worker may still take `d` queued tasks
 (select race between ctx.Done and the queue), the rest is dropped, buffers are flushed synchronously -/
-def bufClose (c : Cfg) (s : St) (d : Nat) : St :=
-  let s0 := { s with closing := true, hold := false }
-  let s1 := match s0.inflight with
-    | some t => workerFlush c { s0 with inflight := none } t
-    | none => s0
-  let s2 := (s1.queue.take d).foldl (workerFlush c) { s1 with queue := [] }
-  flushBufs c { s2 with bufs := [] } s2.bufs
+def dropQueueTail (c : Cfg) (d : Nat) (s : St) : St :=
+  (s.queue.take d).foldl (workerFlush c) { s with queue := [] }
 
-def walClose (c : Cfg) (s : St) : St :=
-  let s1 := drainChan c { s with paused := false }
-  match s1.active with
-  | some f => { s1 with active := none, files := if s1.activeLinked then s1.files ++ [f] else s1.files,
-                        activeLinked := false }
-  | none => s1
+def flushAllBufs (c : Cfg) (s : St) : St := flushBufs c { s with bufs := [] } s.bufs
+
+def bufClose (c : Cfg) (s : St) (d : Nat) : St :=
+  flushAllBufs c (dropQueueTail c d (finishInflight c { s with closing := true, hold := false }))
+
+def closeActive (s : St) : St :=
+  match s.active with
+  | some f => { s with active := none, files := if s.activeLinked then s.files ++ [f] else s.files,
+                       activeLinked := false }
+  | none => s
+
+def walClose (c : Cfg) (s : St) : St := closeActive (drainChan c { s with paused := false })
 
 def purgeAll (s : St) : St :=
   { s with files := [], activeLinked := false,
@@ -276,22 +292,21 @@ def shutdown (c : Cfg) (s : St) (d : Nat) : St :=
   { (c.facts.shutdown.foldl (shutAct c d) s) with up := false }
 
 def crash (s : St) : St :=
-  { s with up := false, chan := [], paused := false, bufs := [], queue := [], inflight := none,
-           hold := false, flag := false, closing := false,
-           files := match s.active with
-             | some f => if s.activeLinked then s.files ++ [f] else s.files
-             | none => s.files,
-           active := none, activeLinked := false }
+  { closeActive s with up := false, chan := [], paused := false, bufs := [], queue := [], inflight := none,
+                       hold := false, flag := false, closing := false }
 
 /-- process start: new WAL writer (fresh active file), new buffer, start-up recovery of every other
 file (no MinFileAge) -/
+def freshProc (s : St) : St :=
+  { s with up := true, closing := false, hold := false, flag := false, paused := false,
+           chan := [], bufs := [], queue := [], inflight := none, lastFull := false }
+
+def openWal (s : St) : St :=
+  { s with active := some ⟨s.nextFile, s.now, []⟩, activeLinked := true, activeStart := s.now,
+           nextFile := s.nextFile + 1 }
+
 def restart (c : Cfg) (s : St) : St :=
-  let s0 := { s with up := true, closing := false, hold := false, flag := false, paused := false,
-                     chan := [], bufs := [], queue := [], inflight := none, lastFull := false }
-  if c.walOn then
-    replayFiles c 0 { s0 with active := some ⟨s0.nextFile, s0.now, []⟩, activeLinked := true,
-                              activeStart := s0.now, nextFile := s0.nextFile + 1 }
-  else s0
+  if c.walOn then replayFiles c 0 (openWal (freshProc s)) else freshProc s
 
 /-! ### events -/
 
@@ -312,42 +327,47 @@ deriving DecidableEq, Repr
 def reportsFull (c : Cfg) : Bool :=
   c.facts.queueFullErrors && (!c.facts.queueFullErrorsOnlyNoWal || !c.walOn)
 
+def walStage (c : Cfg) (s : St) (key : Nat) (rows : List Row) : St :=
+  if c.walOn then walAppend c { s with lastFull := false } ⟨key, rows⟩ else { s with lastFull := false }
+
+def ackOf (c : Cfg) (s : St) : Bool := !(s.lastFull && reportsFull c)
+
+def finishWrite (c : Cfg) (s : St) (rows : List Row) : St :=
+  { s with lastAck := ackOf c s, acked := if ackOf c s then s.acked ++ rows.map (·.id) else s.acked }
+
 def write (c : Cfg) (s : St) (key : Nat) (rows : List Row) : St :=
-  let s0 := { s with lastFull := false }
-  let s1 := if c.walOn then walAppend c s0 ⟨key, rows⟩ else s0
-  let s2 := bufAppend c s1 key rows
-  let ack := !(s2.lastFull && reportsFull c)
-  { s2 with lastAck := ack, acked := if ack then s2.acked ++ rows.map (·.id) else s2.acked }
+  finishWrite c (bufAppend c (walStage c s key rows) key rows) rows
 
 /-- one worker step while held: the in-flight task completes, the next one is taken -/
 def step1 (c : Cfg) (s : St) : St :=
   match s.inflight with
-  | some t => settle c (workerFlush c { s with inflight := none } t)
+  | some _ => settle c (finishInflight c s)
   | none => s
+
+/-- the event proper, on a running process, clock already advanced -/
+def stepUp (c : Cfg) (s : St) : Ev → St
+  | .write k rows => write c s k rows
+  | .wpause => { s with paused := true }
+  | .wresume => drainChan c { s with paused := false }
+  | .hold => { s with hold := true }
+  | .unhold => runWorker c { s with hold := false }
+  | .step1 => step1 c s
+  | .ageFlush => ageFlush c s
+  | .tick => tick c s
+  | .shutdown d => shutdown c s d
+  | .crash => crash s
+  | _ => s
+
+def begin (s : St) (obs : List Nat) (d : Nat) : St := { s with obs := obs, lastAck := false, now := s.now + d }
 
 /-- events that need a running process are no-ops when it is down (and `restart` when it is up);
 every event except `adv` takes one second -/
 def step (c : Cfg) (s : St) (e : Ev) (obs : List Nat := []) : St :=
-  let s := { s with obs := obs, lastAck := false }
   match e with
-  | .adv d => { s with now := s.now + d }
-  | .mode m => { s with now := s.now + 1, failAfter := m }
-  | .restart => if s.up then s else restart c { s with now := s.now + 1 }
-  | e =>
-    if !s.up then s else
-    let s := { s with now := s.now + 1 }
-    match e with
-    | .write k rows => write c s k rows
-    | .wpause => { s with paused := true }
-    | .wresume => drainChan c { s with paused := false }
-    | .hold => { s with hold := true }
-    | .unhold => runWorker c { s with hold := false }
-    | .step1 => step1 c s
-    | .ageFlush => ageFlush c s
-    | .tick => tick c s
-    | .shutdown d => shutdown c s d
-    | .crash => crash s
-    | _ => s
+  | .adv d => begin s obs d
+  | .mode m => { begin s obs 1 with failAfter := m }
+  | .restart => if s.up then begin s obs 0 else restart c (begin s obs 1)
+  | e => if s.up then stepUp c (begin s obs 1) e else begin s obs 0
 
 def run (c : Cfg) (s : St) : List Ev → St
   | [] => s
@@ -355,14 +375,19 @@ def run (c : Cfg) (s : St) : List Ev → St
 
 /-! ### observables -/
 
-def Buf.ids (b : Buf) : List Nat := b.rows.map (·.id)
-def liveRows (s : St) : List Row :=
-  s.bufs.flatMap (·.rows) ++ s.queue.flatMap (·.rows) ++ (match s.inflight with | some t => t.rows | none => [])
+def bufRows (bs : List Buf) : List Row := bs.flatMap (·.rows)
+def taskRows (q : List Task) : List Row := q.flatMap (·.rows)
+def optRows : Option Task → List Row
+  | some t => t.rows
+  | none => []
+def liveRows (s : St) : List Row := bufRows s.bufs ++ taskRows s.queue ++ optRows s.inflight
 def fileRows (f : WFile) : List Row := f.entries.flatMap (·.rows)
-def walRows (s : St) : List Row :=
-  s.chan.flatMap (·.rows) ++
-  (match s.active with | some f => if s.activeLinked then fileRows f else [] | none => []) ++
-  s.files.flatMap fileRows
+def filesRows (fs : List WFile) : List Row := fs.flatMap fileRows
+def activeRows (s : St) : List Row :=
+  match s.active with
+  | some f => if s.activeLinked then fileRows f else []
+  | none => []
+def walRows (s : St) : List Row := s.chan.flatMap (·.rows) ++ activeRows s ++ filesRows s.files
 
 def cnt (rows : List Row) (i : Nat) : Nat := rows.countP (fun r => r.id == i)
 
